@@ -759,6 +759,15 @@ class Run(ExtraOps):
                     self.mat_entries.setdefault(n.name, ent)
                     break
 
+    def op_mark(self, op):
+        """Wrap a relation in a user-defined MarkerRelation subclass (content and engine unchanged)."""
+        from .world import SimMarker
+
+        t = self.ref(op["t"])
+        if t is None:
+            return
+        self.factory(op, [t], lambda: SimMarker(target=t.rel), lambda rel: t.mv.derive(hist=("mark", t.mv.hist)))
+
     def op_xfer(self, op):
         t = self.ref(op["t"])
         if t is None:
